@@ -851,6 +851,7 @@ Proof.
   all: destruct o; unfold gate_ok_b, gop_run, gop_code, chain_ev, used_event_after, flags_ok_ev, table_shared, first_share_len,
          B_INDIRECT, B_EVENT_IDX, B_ACCESS_PLATFORM, B_VERSION_1 in *.
   all: try rewrite Hsi.
+  all: try match goal with |- context [if ?l =? 0 then [] else [?l]] => destruct (l =? 0) end.
   all: cbn -[bit cfg_ok cfg_val N.mul N.add read_seq].
   all: split_bits f.
   all: try reflexivity.
